@@ -221,6 +221,11 @@ class Normalizer:
             o["result"] = e["result"]
         elif n == "Sent":
             o["t"] = e["type"]
+        elif n == "SendSuppr":
+            o["key"] = e["key"]
+            o["inl"] = e["inl"]
+            o["checked"] = e["checked"]
+            o["matched"] = e["matched"]
         elif n == "Unmatched":
             o["key"] = e["key"]
             o["inl"] = e["inl"]
